@@ -43,7 +43,8 @@ from engine import builders as B
 
 def canon_paths(ctx, f):
     try:
-        ps = B.paths(f.node)
+        from engine.astutil import with_conditional_values
+        ps = B.paths(with_conditional_values(f.node))          # (values chosen by a two-armed assignment read as conditional values, as this rule's forms expect)
     except B.Unsupported as e:
         raise AnalysisError(f"{f.site()}: {e} - the filter is outside the collection-building fragment this rule normalises")
     ps = [p for p in ps if p[1] is not None]
